@@ -1,0 +1,23 @@
+//go:build verif
+
+package checksumutils
+
+import "hash"
+
+// HashBlockSizeForVerif exposes the block size of the parallel hash writer to
+// the verification harness.
+const HashBlockSizeForVerif = hashBlockSize
+
+// ParallelHashWriterForVerif is the surface of the parallel hash writer the
+// verification harness drives directly.
+type ParallelHashWriterForVerif interface {
+	Write(p []byte) (int, error)
+	Flush()
+	Close()
+}
+
+// NewParallelHashWriterForVerif exposes the unexported parallel hash writer to
+// the verification harness (build tag verif only).
+func NewParallelHashWriterForVerif(hashes ...hash.Hash) ParallelHashWriterForVerif {
+	return newParallelHashWriter(hashes...)
+}
